@@ -101,7 +101,12 @@ func (c *c01Case) Oracle() (bool, string) {
 	return checkSweep("the last step")
 }
 
-func (c *c01Case) Sx() string { return "" }
+func (c *c01Case) Sx() string {
+	if c.Fatal != "" {
+		return ""
+	}
+	return sxDbProgram(c.Opts, c.Steps, c.Sweeps, false)
+}
 func (c *c01Case) Nontrivial() bool {
 	st := 0
 	for _, s := range c.Steps {
